@@ -148,6 +148,54 @@ def native_precompiled(w=None, only_modes=None):
                             continue
                         if got != want:
                             problems.append(f"set {si} {name!r} zip={mode}: stored text differs from compile(raw=True, defer_init=True)")
+        # one loader shared by two environments (an environment and its overlay, differing in run-time settings): the same
+        # sequence of get_template / render calls from source and from each precompiled store
+        from jinja2 import StrictUndefined
+        # (only settings that are looked up at run time differ: filters applied to variables, the undefined class; what is folded
+        # at compile time - filters on constants, finalize - is part of the premise "configured like the compiling one")
+        shared = {"base.html": "[{% block body %}{% endblock %}]", "lib.html": "{% macro tag(v) %}<{{ v|mark }}>{% endmacro %}",
+                  "page.html": "{% extends 'base.html' %}{% import 'lib.html' as lib %}{% block body %}{{ lib.tag(w) }}|{{ nothing }}|{{ w|mark }}{% endblock %}",
+                  "inc.html": "{% include 'leaf.html' %}{{ w|mark }}", "leaf.html": "({{ missing_name }})"}
+
+        def scenario(loader):
+            base = Environment(loader=loader)
+            base.filters["mark"] = lambda v: f"base:{v}"
+            strict = base.overlay(undefined=StrictUndefined)
+            strict.filters = dict(base.filters)
+            strict.filters["mark"] = lambda v: f"strict:{v}"
+            other = Environment(loader=loader)
+            other.filters["mark"] = lambda v: f"other:{v}"
+            out = []
+
+            def r(t):
+                try:
+                    return t.render(w="y")
+                except Exception as ex:
+                    return f"{type(ex).__name__}"
+
+            for name in ("page.html", "inc.html"):
+                t1 = base.get_template(name)
+                out.append(("base first", name, r(t1)))
+                t2 = strict.get_template(name)
+                out.append(("overlay first", name, r(t2)))
+                t3 = other.get_template(name)
+                out.append(("second environment", name, r(t3)))
+                out.append(("base again", name, r(t1)))
+                out.append(("overlay again", name, r(t2)))
+                out.append(("base reloaded", name, r(base.get_template(name))))
+            return out
+
+        want = scenario(DictLoader(shared))
+        for mode in (only_modes or (None, "deflated", "stored")):
+            target = os.path.join(tmp, f"shared_{mode}" + ("" if mode is None else ".zip"))
+            cenv = Environment(loader=DictLoader(shared))
+            cenv.filters["mark"] = lambda v: v
+            cenv.compile_templates(target, zip=mode, log_function=lambda x: None, ignore_errors=False)
+            got = scenario(ModuleLoader(target))
+            n += len(got)
+            for a, b in zip(want, got):
+                if a != b:
+                    problems.append(f"one ModuleLoader (zip={mode}) shared by two environments: step {b[0]!r} of {b[1]!r} renders {b[2]!r}, from source {a[2]!r}")
     finally:
         shutil.rmtree(tmp, ignore_errors=True)
     return problems, n
@@ -172,7 +220,8 @@ def standin(task, tier, seed):
     task.bound_text = ("2 template sets (24 templates: 3-level inheritance with super(), dynamic extends, scoped / required blocks, includes "
                        "(list, ignore missing, without context), imports / from-imports with and without context, macros with call blocks, "
                        "recursive loops, autoescape, non-ASCII template name, one template with a syntax error) x {sync, async} x "
-                       "{directory, deflated zip, stored zip} x 2 data assignments; oracle: same output or same exception class as from source; "
+                       "{directory, deflated zip, stored zip} x 2 data assignments, plus one loader shared by an environment, its StrictUndefined overlay "
+                       "and a second environment (get_template / render / render-again sequences); oracle: same output or same exception class as from source; "
                        "stored text == compile(raw=True, defer_init=True)")
     problems, n = _native_safe()
     task.stats = {"renders": n, "seconds": round(time.time() - t0, 2)}
@@ -878,6 +927,188 @@ class LoaderLoad(VC):
         return {"function": "ModuleLoader.load", "cached": self.cached}
 
 
+class LoaderLoadTwice(VC):
+    """The same name loaded twice through ONE ModuleLoader (for two environments): the namespace dict handed to
+    Template.from_module_dict / _from_namespace the second time is not the one the first template owns.  (_from_namespace
+    stores the loading environment in namespace['environment'], the global the deferred functions read: a shared namespace
+    makes the template handed out first render with the other environment.)
+
+    Dependency spec of the import system (assumed): `__import__(dotted, ..., fromlist)` returns sys.modules[dotted] when
+    present, otherwise executes the file into a FRESH module, stores it in sys.modules[dotted] and binds it as attribute
+    <short name> of the parent package object; `getattr(package, name, default)` sees exactly those bindings."""
+    prop = "C31"
+    target = "jinja2.loaders:ModuleLoader.load"
+
+    def __init__(self):
+        super().__init__("C31", "C31.module_loader.load.twice")
+
+    # -- deciding string equalities under the path condition
+    @staticmethod
+    def _eq(st, a, b):
+        ta, tb = to_term(a, "str"), to_term(b, "str")
+        from pyvc.smt import check_sat
+        if check_sat(list(st.pc) + [ta != tb], 3000, 0, use_cvc5=False).status == "unsat":
+            return True
+        if check_sat(list(st.pc) + [ta == tb], 3000, 0, use_cvc5=False).status == "unsat":
+            return False
+        return None
+
+    def configure(self, I):
+        owner = self
+        F_key = z3.Function("get_template_key", z3.StringSort(), z3.StringSort())
+
+        def key_spec(I_, st, args, kwargs, node):
+            r = Sym(F_key(to_term(args[-1], "str")), "str")
+            st.assume(z3.Not(z3.Contains(r.t, z3.StringVal("."))), z3.Length(r.t) > 0)
+            st.trace.append(Event("call", "get_template_key", args, kwargs, r))
+            return [(st, r)]
+
+        for k in ("jinja2.loaders:ModuleLoader.get_template_key", "ModuleLoader.get_template_key", ("fn", id(L.ModuleLoader.get_template_key))):
+            I.specs[k] = key_spec
+
+        def lookup(st, table, name):
+            """-> list of (state, module or None) for a ghost table [(key term, module)]"""
+            outs = []
+            cur = st
+            for kt, mod in table(cur):
+                d = owner._eq(cur, name, kt)
+                if d is True:
+                    outs.append((cur, mod))
+                    return outs
+                if d is None:
+                    hit = cur.fork()
+                    hit.assume(to_term(name, "str") == to_term(kt, "str"))
+                    outs.append((hit, mod))
+                    cur.assume(to_term(name, "str") != to_term(kt, "str"))
+            outs.append((cur, None))
+            return outs
+
+        def pkg_attrs(st):
+            return list(st.get(owner.module).fields.get("ghost_attrs", ()))
+
+        def sys_entries(st):
+            return list(st.get(owner.sysmodules).fields.get("ghost_entries", ()))
+
+        base_getattr = I.specs.get(("fn", id(getattr)))
+
+        def getattr_spec(I_, st, args, kwargs, node):
+            if args[0] == owner.module and len(args) == 3:
+                res = []
+                for s, mod in lookup(st, pkg_attrs, args[1]):
+                    s.trace.append(Event("call", "getattr(self.module)", args[1:], {}, mod))
+                    res.append((s, mod if mod is not None else args[2]))
+                return res
+            return base_getattr(I_, st, args, kwargs, node)
+
+        I.specs[("fn", id(getattr))] = getattr_spec
+
+        def import_spec(I_, st, args, kwargs, node):
+            name = args[0]
+            res = []
+            for s, mod in lookup(st, sys_entries, name):
+                if mod is not None:
+                    s.trace.append(Event("call", "__import__", args, kwargs, mod))
+                    res.append((s, mod))
+                    continue
+                # not in sys.modules: the file is executed into a fresh module (or cannot be found)
+                s2 = s.fork()
+                e = Exc(ImportError, (), tag="__import__", origin=getattr(node, "lineno", None))
+                s2.trace.append(Event("call", "__import__", args, kwargs, e))
+                res.append((s2, Raised(e)))
+                n = len([e_ for e_ in s.trace if e_.name == "__import__"])
+                m = s.alloc(HObj(_AbsModule, fields={"__dict__": fresh("module_dict", "obj")}, path=f"imported{n}"))
+                t = to_term(name, "str")
+                short = None
+                if z3.is_app(t) and t.decl().kind() == z3.Z3_OP_SEQ_CONCAT:
+                    leaf = t
+                    while z3.is_app(leaf) and leaf.decl().kind() == z3.Z3_OP_SEQ_CONCAT:
+                        leaf = leaf.children()[-1]
+                    # <package>.<short>: the last piece of the dotted name, which contains no dot itself
+                    if owner._eq(s, Sym(z3.Concat(owner.pkg.t, z3.StringVal("."), leaf), "str"), name) is True:
+                        short = leaf
+                if short is None:
+                    raise Unsupported("import of a module whose name is not <package>.<key>", node)
+                hm, hs = s.get(owner.module), s.get(owner.sysmodules)
+                hm.fields["ghost_attrs"] = tuple(hm.fields.get("ghost_attrs", ())) + ((Sym(short, "str"), m),)
+                hs.fields["ghost_entries"] = tuple(hs.fields.get("ghost_entries", ())) + ((name, m),)
+                s.trace.append(Event("call", "__import__", args, kwargs, m))
+                res.append((s, m))
+            return res
+
+        I.specs[("fn", id(__import__))] = import_spec
+
+        def pop_spec(I_, st, args, kwargs, node):
+            res = []
+            for s, mod in lookup(st, sys_entries, args[1]):
+                hs = s.get(owner.sysmodules)
+                if mod is not None:
+                    hs.fields["ghost_entries"] = tuple((k, m) for k, m in hs.fields.get("ghost_entries", ()) if m != mod)
+                s.trace.append(Event("call", "sys.modules.pop", args[1:], kwargs, mod))
+                res.append((s, mod if mod is not None else (args[2] if len(args) > 2 else None)))
+            return res
+
+        I.specs["_SysModules.pop"] = pop_spec
+        I.specs["_AbsTemplateClass.from_module_dict"] = A.abstract_fn("from_module_dict", returns="obj")
+
+        def attr_hook(I_, st, obj, name, node):
+            if obj is sys and name == "modules":
+                return [(st, owner.sysmodules)]
+            return None
+
+        I.attr_hook = attr_hook
+
+    def setup(self, I, st):
+        self.tname = sym("template_name", "str")
+        self.pkg = sym("package_name", "str")
+        self.module = A.obj(st, _AbsModule, "self.module", fields={"ghost_attrs": ()})
+        self.loader = A.obj(st, L.ModuleLoader, "loader", fields={"package_name": self.pkg, "module": self.module})
+        self.sysmodules = A.obj(st, _SysModules, "sys.modules", fields={"ghost_entries": ()})
+        self.tc = A.obj(st, _AbsTemplateClass, "template_class")
+        self.envs = [A.obj(st, E.Environment, f"environment{i}", fields={"template_class": self.tc}) for i in (1, 2)]
+        return [self.loader, self.envs[0], self.tname], {}
+
+    def paths(self, I):
+        from pyvc.contract import Outcome
+        st = State()
+        self.configure(I)
+        args, kwargs = self.setup(I, st)
+        pre = st.fork()
+        clo = self.closure(I)
+        outs = []
+        for s1, v1 in I.call_closure(st, clo, list(args), dict(kwargs)):
+            if isinstance(v1, Raised):
+                continue  # the template does not exist: nothing is handed out
+            for s2, v2 in I.call_closure(s1, clo, [self.loader, self.envs[1], self.tname], {}):
+                outs.append(Outcome(s2, "raise" if isinstance(v2, Raised) else "return", v2.exc if isinstance(v2, Raised) else v2, len(outs)))
+        return pre, outs
+
+    def p_fresh(self, pre, out):
+        fm = A.calls(out, "from_module_dict")
+        if out.raised:
+            # the second load may only fail like the first one could: by not finding the module
+            return out.value.cls is TemplateNotFound
+        if len(fm) != 2:
+            return False
+        d1, d2 = fm[0].args[2], fm[1].args[2]
+        if fm[0].args[1] != self.envs[0] or fm[1].args[1] != self.envs[1]:
+            return False
+        same = (d1 is d2) or (isinstance(d1, Sym) and isinstance(d2, Sym) and d1.t.eq(d2.t))
+        return not same
+
+    def p_unregistered(self, pre, out):
+        """after each load the module is not left in sys.modules (the only reference is the template's namespace)"""
+        return not out.st.get(self.sysmodules).fields.get("ghost_entries")
+
+    posts = [("second_load_gets_a_namespace_of_its_own", p_fresh), ("module_not_left_in_sys_modules", p_unregistered)]
+    expect_paths_min = 1
+
+    def replay(self, w):
+        return replay_native(w)
+
+    def concretize(self, model, pre, out):
+        return {"function": "ModuleLoader.load", "scenario": "one loader, two environments, same template name"}
+
+
 def constructor_tables(task, tier, seed):
     """from_module_dict and from_code build the template with the same constructor; _from_namespace binds the
     module-global `environment` the deferred functions read"""
@@ -943,7 +1174,7 @@ TASKS = (
      Generate(), EnvGenerate(), EnvCompile(),
      CompileTemplates(None), CompileTemplates("deflated"), CompileTemplates("stored"),
      FnTask("C31", "C31.module_loader.tables", loader_tables, "table", replay_native),
-     LoaderLoad(False, False), LoaderLoad(False, True), LoaderLoad(True, False),
+     LoaderLoad(False, False), LoaderLoad(False, True), LoaderLoadTwice(),
      FnTask("C31", "C31.module_loader.constructor", constructor_tables, "table", replay_native),
      FnTask("C31", "C31.native", standin, "bounded", replay_native)]
 )
